@@ -161,13 +161,20 @@ func (e *Entry[K, V]) setNext(entry *Entry[K, V], listType uint8) {
 }
 
 func (e *Entry[K, V]) pentry() *Pentry[K, V] {
+	flag := e.flag
+	// the dirty mark is not persisted: an entry that was overwritten after it
+	// was read from the secondary cache must not come back as a clean copy,
+	// or its eviction would skip the write back
+	if e.nvmDirty.Load() {
+		flag.SetFromNVM(false)
+	}
 	return &Pentry[K, V]{
 		Key:          e.key,
 		Value:        e.value,
 		Weight:       e.weight.Load(),
 		PolicyWeight: e.policyWeight,
 		Expire:       e.expire.Load(),
-		Flag:         e.flag,
+		Flag:         flag,
 	}
 }
 
